@@ -13,7 +13,9 @@
      kind          resolved in        roots handed to Schemas.add_dependencies
      item          create             the component's own reference (ListProperty.build passes `roots` down)
      wrapper       create             the same (single-$ref allOf/anyOf/oneOf goes through _property_from_ref with `roots`)
-     union_member  create             NONE: UnionProperty.build calls property_from_data without `roots` (roots = set())
+     union_member  create             before commit 204aaa6: NONE (UnionProperty.build called property_from_data without `roots`);
+                                      since the fix: the enclosing roots, like every other edge.  The abstraction reads from the
+                                      code which of the two holds (abstract_graph.union_roots_recorded); the machine below is the same
      prop, addl    process_model      the model's roots (its reference and its class name, plus enclosing inline classes)
      allof         process_model      the same; the parent must already have been processed
 
